@@ -1,7 +1,7 @@
 (* C15 - ast.Node behaves like a plain ordered tree; lazy loading is unobservable.
    Only statements, closed by `exact`, with Print Assumptions beneath each. *)
 From Coq Require Import List Arith Bool NArith.
-From SV.Ast Require Import Linked Tree Node Refute LinkedProofs IndexProofs NodeRefine ArrayRefine RootRefine ObjectRefine ObjectOps ObjectSet RootRefine2 ArrayOps ArraySet RootRefine3 ObjectIdx ObjectPop ObjectIdxOps RootRefine4.
+From SV.Ast Require Import Linked Tree Node Refute LinkedProofs IndexProofs NodeRefine ArrayRefine RootRefine ObjectRefine ObjectOps ObjectSet RootRefine2 ArrayOps ArraySet RootRefine3 ObjectIdx ObjectPop ObjectIdxOps RootRefine4 PathRefine MoveProofs MoveOps.
 Import ListNotations.
 
 (* ---- the chunked child storage (head [16] + tail chunks + size) is a plain list ---- *)
@@ -223,4 +223,73 @@ Example C15_node_refines_tree_root_nonvacuous :
     [([], OpSetIdx 1 (RRaw, TNull)); ([], OpUnsetIdx 0); ([], OpPop); ([], OpSet [97]%N (RLazy, TArr [TTrue])); ([], OpLoad); ([], OpLen);
      ([], OpUnset [98]%N); ([], OpLook)]
     (mk_value hash_inj (RRaw, TObj [([97]%N, TNull); ([98]%N, TTrue); ([99]%N, TFalse)])).
+Proof. vm_compute. repeat split; try discriminate. Qed.
+
+(* ---- nodes reached from the root ----
+   one level: Node.Get / Node.Index (get_child, any representation, loading on demand) returns the cell that denotes the child the
+   plain tree addresses (first occurrence of the key / idx-th live element or member), or the tree's error; storing through the
+   returned pointer (put_child) denotes spec_put; loading never changes the values the node denotes *)
+Theorem C15_get_child_spec :
+  forall (hash : bytes -> N) n s, R2 hash n (abs n) -> sel_ok s ->
+    let r := get_child hash n s in
+    R2 hash (snd r) (abs n) /\ fvalues hash (snd r) = fvalues hash (snd (checkRaw hash n)) /\
+    match spec_child (abs n) s with
+    | SVal tc =>
+      exists i c, fst r = LSlot i /\ child_at (snd r) i = Some c /\ exists_ c = true /\ abs c = tc /\
+        nth_error (fvalues hash (snd r)) i = Some c /\
+        forall c', exists_ c' = true ->
+          R2 hash (put_child (snd r) i c') (spec_put (abs n) s (abs c')) /\
+          fvalues hash (put_child (snd r) i c') = upd (fvalues hash (snd r)) i c'
+    | SErr e => fst r = LErr e
+    end.
+Proof. exact get_child_spec. Qed.
+Print Assumptions C15_get_child_spec.
+
+(* all levels, read-only: with the recursive invariant dgood (every node below is well formed), EVERY history of lookups at
+   ARBITRARY paths (Get / Index chains = Node.GetByPath; non-empty keys) from every document in every initial representation
+   observes exactly what the plain tree gives - the value found, "not found", "unsupported type" - whatever earlier lookups happened
+   to parse.  (Mutations below the root are not proved: the per-operation "the cells of the result come from the old cells, the new
+   value or fresh raw cells" lemmas that keep dgood are missing; they are covered by the three-way replay.) *)
+Theorem C15_lookups_at_any_depth :
+  forall (hash : bytes -> N) (v : value) (ops : list step),
+    Forall look_step ops ->
+    fst (run hash ops (mk_value hash v)) = fst (spec_run ops (snd v)).
+Proof. exact look_run_from_doc. Qed.
+Print Assumptions C15_lookups_at_any_depth.
+
+Example C15_lookups_nonvacuous :
+  Forall look_step [([SKey [97]%N; SIdx 1; SKey [98]%N], OpLook); ([SIdx 0], OpLook); ([SKey [97]%N; SIdx 7], OpLook); ([], OpLook)].
+Proof. repeat constructor; simpl; discriminate. Qed.
+
+(* ---- MoveOne on the chunked storage ----
+   for every well-formed storage and every pair of positions (equal, in range, out of range): MoveOne(source, target) is the plain
+   list move - the element at source is taken out and inserted at target, the ones in between slide by one; nothing else changes *)
+Theorem C15_move_one_spec :
+  forall (A : Type) (s : linked A) (source target : nat), wf s ->
+    to_list (MoveOne s source target) = move_nth target source (to_list s) /\ wf (MoveOne s source target) /\
+    size (MoveOne s source target) = size s.
+Proof. exact (@MoveOne_spec). Qed.
+Print Assumptions C15_move_one_spec.
+
+Example C15_move_one_nonvacuous :
+  to_list (MoveOne (FromSlice 0%nat (seq 0 40)) 3 35) = move_nth 35 3 (seq 0 40) /\ nth_error (move_nth 35 3 (seq 0 40)) 35 = Some 3%nat.
+Proof. split; vm_compute; reflexivity. Qed.
+
+(* ---- node_refines_tree at the root, with Move ----
+   C15_node_refines_tree_root extended by Move(dst, src) - any positions, in or out of range - on an array that has no soft-deleted
+   cell at that moment (guard `dense`, evaluated on the model state like the Len guard).  Move over unset cells (the logical ->
+   physical translation move_translate) is not proved; it is covered by the replay and the regression witness of fix d346b1d. *)
+Theorem C15_node_refines_tree_root_move :
+  forall (hash : bytes -> N),
+    (forall a b, hash a = hash b -> a = b) -> (forall k, hash k <> 0%N) ->
+    forall (v : value) (ops : list step),
+      steps_ok5 hash ops (mk_value hash v) ->
+      fst (run hash ops (mk_value hash v)) = fst (spec_run ops (snd v)).
+Proof. intros hash H1 H2. exact (node_refines_tree_root5_from_doc hash H1 H2). Qed.
+Print Assumptions C15_node_refines_tree_root_move.
+
+Example C15_node_refines_tree_root_move_nonvacuous :
+  steps_ok5 hash_inj
+    [([], OpMove 3 0); ([], OpAdd (RRaw, TNull)); ([], OpMove 0 4); ([], OpMove 9 1); ([], OpSetIdx 2 (RFull, TTrue)); ([], OpLoad); ([], OpLen); ([], OpPop)]
+    (mk_value hash_inj (RRaw, TArr [TNull; TTrue; TFalse; TNum [49]%N])).
 Proof. vm_compute. repeat split; try discriminate. Qed.
